@@ -25,59 +25,70 @@ def replay_of(res, c, expected, observed, why):
 
 def run_property(rep, prop, tier, rng, judge, rule, nspecs=None, opts=None, tag="t2"):
     """judge(case, impl_value, impl_allocs, spec) -> None | (expected, why) | ('KNOWN', id, what)"""
-    known = load_known()
-    res = t2.campaign(tier, rep.seed, nspecs=nspecs, opts=opts, tag=tag)
-    tie_breaks, nviol, distinct = [], 0, set()
-    kinds, outcomes = {}, {}
-    nrel = 0
-    for c in res["cases"]:
-        iv, ia = t4.split_reply(c["impl"])
-        mv, ma = t4.split_reply(c["model"])
-        spec = res["specs"][c["k"]]
-        verdict = judge(c, iv, ia, spec, mv, ma)
-        if verdict == "skip":
-            continue
-        nrel += 1
-        kinds[c["kind"]] = kinds.get(c["kind"], 0) + 1
-        oc = iv.split()[0] + (" " + iv.split()[1] if iv.startswith("err") else "")
-        outcomes[oc] = outcomes.get(oc, 0) + 1
-        distinct.add((c["k"], c["ty"], c["kind"], oc, c.get("what")))
-        if verdict is not None:
-            if verdict[0] == "KNOWN":
-                rep.known_finding(verdict[1], verdict[2])
-            else:
-                nviol += 1
-                if nviol <= 5:
-                    rep.violation(replay_of(res, c, verdict[0], iv[:2000], verdict[1]))
-        if iv != mv:
-            tie_breaks.append((c, iv, mv, "value"))
-        elif prop == "C09" and not iv.startswith("panic") and not t2.allocs_ok(ma, ia, t2.spec_sizes(spec)):
-            tie_breaks.append((c, " ".join(ia), " ".join(ma), "allocation log"))
-    st = {}
-    for s in res["specs"]:
-        st[s["status"]] = st.get(s["status"], 0) + 1
-    rep.cov.update({"evaluations": nrel, "distinct_nontrivial": len(distinct), "programs": len(res["specs"]), "spec_status": st,
-                    "traces_validated_against_impl": nrel - len(tie_breaks), "input_kinds": kinds, "outcomes": outcomes, "rule": rule,
-                    "samples": [{"spec": res["specs"][c["k"]]["text"][:200], "type": c["ty"], "family": c["fam"], "input_hex": c["hex"][:120],
-                                 "kind": c["kind"], "impl": c["impl"][:200]} for c in res["cases"][:: max(1, len(res["cases"]) // 6)]][:6]})
+    nviol, distinct = 0, set()
+    kinds, outcomes, st = {}, {}, {}
+    nrel = nprog = ntie = 0
+    first_tie = None
+    hyp = {h: 0 for h in ("supported", "plansok", "sizeexact", "finite", "outputok")}
+    uncovered, not_compiled, samples = [], [], []
+    for ci, res in enumerate(t2.campaign_chunks(tier, rep.seed, nspecs=nspecs, opts=opts, tag=tag)):
+        for c in res["cases"]:
+            iv, ia = t4.split_reply(c["impl"])
+            mv, ma = t4.split_reply(c["model"])
+            spec = res["specs"][c["k"]]
+            verdict = judge(c, iv, ia, spec, mv, ma)
+            if verdict == "skip":
+                continue
+            nrel += 1
+            kinds[c["kind"]] = kinds.get(c["kind"], 0) + 1
+            oc = iv.split()[0] + (" " + iv.split()[1] if iv.startswith("err") else "")
+            outcomes[oc] = outcomes.get(oc, 0) + 1
+            distinct.add((ci, c["k"], c["ty"], c["kind"], oc, c.get("what")))
+            if verdict is not None:
+                if verdict[0] == "KNOWN":
+                    rep.known_finding(verdict[1], verdict[2])
+                else:
+                    nviol += 1
+                    if nviol <= 5:
+                        rep.violation(replay_of(res, c, verdict[0], iv[:2000], verdict[1]))
+            tie = None
+            if iv != mv:
+                tie = (iv, mv, "value")
+            elif prop == "C09" and not iv.startswith("panic") and not t2.allocs_ok(ma, ia, t2.spec_sizes(spec)):
+                tie = (" ".join(ia), " ".join(ma), "allocation log")
+            if tie:
+                ntie += 1
+                if first_tie is None:
+                    first_tie = replay_of(res, c, None, tie[0][:2000], "tie-T2-broken")
+                    first_tie.update({"tie": "T2 compiled generated decoders vs Fx.Eval (%s)" % tie[2], "model": tie[1][:2000]})
+        for k, s in enumerate(res["specs"]):
+            st[s["status"]] = st.get(s["status"], 0) + 1
+            # hypotheses of the specification-level theorems (Supported, Plans.Ok, SizeExact', finite types, outputOk) on the specifications
+            # whose decoders were exercised: the plan-level ones must hold for everything rustc compiled
+            for h in hyp:
+                hyp[h] += s.get("flags", {}).get(h) == "true"
+            if s["status"] == "ok" and not all(s.get("flags", {}).get(h) == "true" for h in ("plansok", "sizeexact", "finite", "outputok")):
+                uncovered.append(s)
+            if s["status"] != "ok":
+                not_compiled.append({"chunk": ci, "k": k, "status": s["status"]})
+        nprog += len(res["specs"])
+        if len(samples) < 6:
+            samples += [{"spec": res["specs"][c["k"]]["text"][:200], "type": c["ty"], "family": c["fam"], "input_hex": c["hex"][:120],
+                         "kind": c["kind"], "impl": c["impl"][:200]} for c in res["cases"][:: max(1, len(res["cases"]) // 6)]][:6 - len(samples)]
+        del res
+    rep.cov.update({"evaluations": nrel, "distinct_nontrivial": len(distinct), "programs": nprog, "spec_status": st,
+                    "traces_validated_against_impl": nrel - ntie, "input_kinds": kinds, "outcomes": outcomes, "rule": rule, "samples": samples})
     rep.assumptions += ["Rust semantics of the emitted subset modelled in Fx/Eval.lean (tied by this run)", "bytes crate modelled", "A-usize"]
     # specifications whose generated module did not compile are C07's business; they are not silently dropped
-    rep.cov["specs_not_compiled"] = [k for k, s in enumerate(res["specs"]) if s["status"] != "ok"]
-    # hypotheses of the specification-level theorems (Supported, Plans.Ok, SizeExact', finite types, outputOk) on the specifications
-    # whose decoders were exercised: the plan-level ones must hold for everything rustc compiled
-    hyp = {h: sum(1 for s in res["specs"] if s.get("flags", {}).get(h) == "true") for h in ("supported", "plansok", "sizeexact", "finite", "outputok")}
-    rep.cov["theorem_hypotheses_hold_on"] = dict(hyp, of=len(res["specs"]))
-    uncovered = [s for s in res["specs"] if s["status"] == "ok" and not all(s.get("flags", {}).get(h) == "true" for h in ("plansok", "sizeexact", "finite", "outputok"))]
-    if uncovered and nviol == 0 and not tie_breaks:
+    rep.cov["specs_not_compiled"] = not_compiled
+    rep.cov["theorem_hypotheses_hold_on"] = dict(hyp, of=nprog)
+    if uncovered and nviol == 0 and not ntie:
         rep.violation({"kind": "theorem-hypothesis-fails", "what": "a specification of the supported subset compiled, but a decidable hypothesis of the plan-level theorems "
                        "(Plans.Ok / Plans.SizeExact' / Plans.finite / outputOk) is false for the plans the model emits for it", "spec": uncovered[0]["text"],
                        "flags": uncovered[0].get("flags"), "count": len(uncovered)}, found_input=False)
-    if tie_breaks and nviol == 0:
-        c, iv, mv, what = tie_breaks[0]
-        r = replay_of(res, c, None, iv[:2000], "tie-T2-broken")
-        r.update({"tie": "T2 compiled generated decoders vs Fx.Eval (%s)" % what, "model": mv[:2000], "differences": len(tie_breaks)})
-        rep.violation(r, found_input=False)
-    return res
+    if ntie and nviol == 0:
+        first_tie["differences"] = ntie
+        rep.violation(first_tie, found_input=False)
 
 
 def replay_case(r):
